@@ -1,3 +1,170 @@
 """extra.py — property-specific machinery beyond the generic correspondence (C05, C18, C19, C20)."""
+import os, re, subprocess, sys, time
+import infra, gen, twins, trace as tracemod, runner
+from gen import Gen
+
 def run_extra(ctx):
-    return
+    if ctx.pid == "C19":
+        c19(ctx)
+    elif ctx.pid == "C05":
+        c05(ctx)
+    elif ctx.pid == "C20":
+        import c20
+        c20.run(ctx)
+    elif ctx.pid == "C18":
+        import tablediag
+        tablediag.c18_runtime(ctx)
+
+# ------------------------------------------------------------------------------------------
+# C19
+# ------------------------------------------------------------------------------------------
+def strip_end(path):
+    return [l for l in open(path).read().splitlines() if not l.startswith("END") and not l.startswith("SEG")]
+
+def c19(ctx):
+    q = ctx.tier == "quick"
+    wd = ctx.workdir
+    # (a) interleaved instances vs each instance's solo run (implementation against implementation)
+    for rep in range(3 if q else 25):
+        tw = twins.twin_c19(ctx.seed * 1000 + rep, 2 + rep % 7, 1500 if q else 8000)
+        ri = runner.run_stream(wd, "c19i_%d" % rep, "u", tw["inter"])
+        recs_i = [r for r in tracemod.read_trace(ri.trace_path)]
+        solo_recs = []
+        for i, s in enumerate(tw["solos"]):
+            rs = runner.run_stream(wd, "c19s_%d_%d" % (rep, i), "u", s)
+            solo_recs.append([r for r in tracemod.read_trace(rs.trace_path)])
+        n = 0
+        bad = None
+        for k, own in enumerate(tw["owner"]):
+            if own is None or k >= len(recs_i) or recs_i[k] is None:
+                continue
+            i, j = own
+            if j >= len(solo_recs[i]) or solo_recs[i][j] is None:
+                continue
+            n += 1
+            d = tracemod.compare_records(recs_i[k], solo_recs[i][j])
+            if d:
+                bad = (k, i, j, d[0])
+                break
+        ctx.cov["evaluations"] += n
+        ctx.cov["distinct_nontrivial"] += sum(1 for o in tw["owner"] if o is None)
+        ctx.cov["twin_runs"].append({"name": "c19_interleave_%d" % rep, "instances": len(tw["solos"]), "records_compared": n,
+                                     "context_switches": sum(1 for o in tw["owner"] if o is None)})
+        if bad:
+            k, i, j, (comp, va, vb) = bad
+            hdr = ["property=C19 kind=twin: instance %d behaves differently interleaved (op %d of the schedule) than alone (op %d of its own sequence): %s: interleaved=%s solo=%s" % (i, k, j, comp, va, vb)]
+            path = runner.write_replay("C19", "interleave-s%d-%d" % (ctx.seed, rep), hdr, tw["inter"][: k + 1])
+            ctx.add_violation(path, "instance %d not isolated: %s" % (i, comp))
+            return
+    # (b) writable-segment immutability
+    try:
+        seg = infra.build_binary("u", "seg")
+    except infra.BuildError as e:
+        ctx.notes.append("segment check not built: " + str(e)[:200])
+        seg = None
+    if seg:
+        for rep in range(1 if q else 4):
+            ops = Gen(ctx.seed * 77 + rep).mixed(12000 if q else 150000, multi=True)
+            p = os.path.join(wd, "seg_%d.ops" % rep)
+            gen.write_ops(p, ops)
+            r = subprocess.run([seg, p], stdout=subprocess.PIPE, stderr=subprocess.PIPE, text=True)
+            m = re.search(r"SEG segments=(\d+) bytes=(\d+) changed=(\d+)", r.stdout[-400:])
+            ctx.cov.setdefault("segment_checks", []).append({"ops": len(ops), "result": m.group(0) if m else "no SEG line", "exit": r.returncode})
+            ctx.cov["evaluations"] += len(ops)
+            if not m or int(m.group(1)) == 0:
+                ctx.notes.append("segment check inconclusive: " + (r.stderr[-200:] or "no writable segment found"))
+            elif int(m.group(3)) > 0:
+                diffs = [l for l in r.stdout[-2000:].splitlines() if l.startswith("SEGDIFF")]
+                pred_ops = shrink_seg(seg, wd, ops)
+                path = runner.write_replay("C19", "segment-s%d" % ctx.seed, ["property=C19 kind=segment: the library wrote to its own writable data segment (hidden mutable global/static state): " + "; ".join(diffs[:4]),
+                                                                               "replay with the shared-object harness (tools/infra.py kind 'seg')"], pred_ops)
+                ctx.add_violation(path, "library modified %s bytes of its writable segment" % m.group(3))
+                return
+    # (c) per-thread instances under gcc ThreadSanitizer
+    try:
+        ts = infra.build_binary("u", "tsan")
+    except infra.BuildError as e:
+        ctx.notes.append("TSan harness not built: " + str(e)[:200])
+        return
+    nthreads = 4 if q else 8
+    paths = []
+    for i in range(nthreads):
+        ops = [l for l in Gen(ctx.seed * 131 + i).mixed(4000 if q else 60000, multi=False) if l not in ("mf", "fn")]
+        p = os.path.join(wd, "th_%d.ops" % i)
+        gen.write_ops(p, ops)
+        paths.append((p, ops))
+    env = dict(os.environ); env["TSAN_OPTIONS"] = "halt_on_error=0:exitcode=66:report_signal_unsafe=0"
+    r = subprocess.run([ts] + [p for p, _ in paths], stdout=subprocess.PIPE, stderr=subprocess.PIPE, text=True, env=env)
+    races = len(re.findall(r"WARNING: ThreadSanitizer", r.stderr))
+    ctx.cov["tsan"] = {"threads": nthreads, "ops_per_thread": len(paths[0][1]), "reports": races, "exit": r.returncode}
+    ctx.cov["evaluations"] += sum(len(o) for _, o in paths)
+    if races or r.returncode == 66:
+        first = r.stderr[: r.stderr.find("==================", 20) if "==================" in r.stderr[20:] else 3000]
+        body = []
+        for p, o in paths[:2]:
+            body += ["# ---- thread ----"] + o[:400]
+        path = runner.write_replay("C19", "tsan-s%d" % ctx.seed, ["property=C19 kind=data race reported by gcc ThreadSanitizer for per-thread instances: " + first.replace("\n", " | ")[:2500]], body)
+        ctx.add_violation(path, "ThreadSanitizer: %d report(s)" % races)
+        return
+    # each thread's trace must equal the solo trace of the same ops
+    for i, (p, ops) in enumerate(paths):
+        rs = runner.run_stream(wd, "th_solo_%d" % i, "u", ops)
+        a = strip_end(rs.trace_path)
+        tt = p + ".ttrace"
+        b = strip_end(tt) if os.path.exists(tt) else []
+        if a != b:
+            k = next((j for j in range(min(len(a), len(b))) if a[j] != b[j]), min(len(a), len(b)))
+            path = runner.write_replay("C19", "threads-s%d" % ctx.seed, ["property=C19 kind=threads: thread %d's trace differs from its solo trace at trace line %d: solo=%s threaded=%s" % (i, k, a[k][:200] if k < len(a) else "<end>", b[k][:200] if k < len(b) else "<end>")], ops)
+            ctx.add_violation(path, "thread %d trace differs from solo trace" % i)
+            return
+
+def shrink_seg(seg, wd, ops):
+    """smallest prefix of the ops for which the segment still changes (bisection)"""
+    def changed(cand):
+        p = os.path.join(wd, "segshrink.ops")
+        gen.write_ops(p, cand)
+        r = subprocess.run([seg, p], stdout=subprocess.PIPE, stderr=subprocess.PIPE, text=True)
+        m = re.search(r"changed=(\d+)", r.stdout[-200:])
+        return bool(m and int(m.group(1)) > 0)
+    lo, hi = 1, len(ops)
+    while lo < hi:
+        mid = (lo + hi) // 2
+        if changed(ops[:mid]): hi = mid
+        else: lo = mid + 1
+    return ops[:lo]
+
+# ------------------------------------------------------------------------------------------
+# C05: additional runtimes in the thorough tier
+# ------------------------------------------------------------------------------------------
+def c05(ctx):
+    if ctx.tier == "quick":
+        return
+    import props
+    wd = ctx.workdir
+    ops = props.c05_stream(ctx.seed + 5, 60000)
+    # MemorySanitizer (uninitialised reads)
+    try:
+        ms = infra.build_binary("u", "msan")
+        p = os.path.join(wd, "msan.ops"); gen.write_ops(p, ops)
+        r = subprocess.run([ms, p], stdout=subprocess.DEVNULL, stderr=subprocess.PIPE, text=True)
+        ctx.cov["msan"] = {"ops": len(ops), "exit": r.returncode}
+        ctx.cov["evaluations"] += len(ops)
+        if r.returncode != 0:
+            path = runner.write_replay("C05", "msan-s%d" % ctx.seed, ["property=C05 kind=MemorySanitizer: " + r.stderr[:2500].replace("\n", " | ")], ops)
+            ctx.add_violation(path, "MemorySanitizer report")
+            return
+    except infra.BuildError as e:
+        ctx.notes.append("MSan harness not built: " + str(e)[:200])
+    # valgrind memcheck on the uninstrumented harness
+    try:
+        pl = infra.build_binary("u", "plain")
+        small = ops[:15000]
+        p = os.path.join(wd, "vg.ops"); gen.write_ops(p, small)
+        r = subprocess.run(["valgrind", "--error-exitcode=9", "--leak-check=full", "-q", pl, p], stdout=subprocess.DEVNULL, stderr=subprocess.PIPE, text=True)
+        ctx.cov["valgrind"] = {"ops": len(small), "exit": r.returncode}
+        ctx.cov["evaluations"] += len(small)
+        if r.returncode != 0:
+            path = runner.write_replay("C05", "valgrind-s%d" % ctx.seed, ["property=C05 kind=valgrind memcheck: " + r.stderr[:2500].replace("\n", " | ")], small)
+            ctx.add_violation(path, "valgrind memcheck report")
+    except infra.BuildError as e:
+        ctx.notes.append("plain harness not built: " + str(e)[:200])
